@@ -293,6 +293,7 @@ class Sym:
         self.max_depth = max_depth
         self.bound: Dict[str, str] = {}       # name -> canonical string override (inlining)
         self.suffix: Optional[Callable[[str], str]] = None   # version suffix for untracked state reads
+        self.tuple_inliner: Optional[Callable] = None
         self.decide: Optional[Callable] = None   # cmp normal form -> True / False / None: assumptions under which conditional values collapse
         self.scope: List[Dict[str, str]] = []  # comprehension/lambda bound names -> positional canonical names (alpha-normal form)
 
@@ -422,6 +423,10 @@ class Sym:
                 return Poly.atom(e.id)
             if d.kind == "unpack" and isinstance(d.ast, ast.Assign) and len(d.ast.targets) == 1:
                 t, v = d.ast.targets[0], d.ast.value
+                if isinstance(t, (ast.Tuple, ast.List)) and isinstance(v, ast.Call) and self.tuple_inliner is not None and all(isinstance(x, ast.Name) for x in t.elts):
+                    elts = self.tuple_inliner(self, v, len(t.elts), d.node, depth + 1)      # a, b = new_pure_helper(...): element-wise
+                    if elts is not None:
+                        return elts[[x.id for x in t.elts].index(e.id)]
                 if (isinstance(t, (ast.Tuple, ast.List)) and isinstance(v, (ast.Tuple, ast.List)) and len(t.elts) == len(v.elts)
                         and not any(isinstance(x, ast.Starred) for x in t.elts + v.elts)):
                     for te, ve in zip(t.elts, v.elts):
@@ -588,6 +593,9 @@ class Sym:
 
     # ---- calls
     def _call(self, e: ast.Call, at, depth) -> Poly:
+        cv = self.__dict__.get("call_values")
+        if cv and id(e) in cv:
+            return cv[id(e)]          # value computed by the forward interpreter when it evaluated this (new, in-package) helper in place
         fn = e.func
         if isinstance(fn, ast.Name) and not e.keywords:
             if fn.id == "abs" and len(e.args) == 1:
